@@ -31,6 +31,8 @@ const (
 	ErrIncorrectMultiSwap = "incorrect swap"
 	// ErrIncorrectMultiSwapKey is a reason for multiswap
 	ErrIncorrectMultiSwapKey = "incorrect key"
+	// ErrMultiSwapAlreadyExists is returned when an answer would replace an existing multiswap
+	ErrMultiSwapAlreadyExists = "multiswap already exists"
 )
 
 // BaseContractInterface represents BaseContract interface
@@ -53,6 +55,11 @@ func Answer(stub *cachestub.BatchCacheStub, swap *proto.MultiSwap, robotSideTime
 		return &proto.SwapResponse{Id: swap.GetId(), Error: &proto.ResponseError{Error: err.Error()}}
 	}
 	txStub := stub.NewTxCacheStub(hex.EncodeToString(swap.GetId()))
+
+	// an open multi-swap under this id (its escrow) must never be replaced by an answer
+	if _, err = Load(txStub, hex.EncodeToString(swap.GetId())); err == nil {
+		return &proto.SwapResponse{Id: swap.GetId(), Error: &proto.ResponseError{Error: ErrMultiSwapAlreadyExists}}
+	}
 
 	swap.Creator = []byte("0000")
 	swap.Timeout = ts.GetSeconds() + robotSideTimeout
